@@ -175,7 +175,8 @@ PROPS = {
     "C05": dict(
         rules=[R("enc", "rule_enc"), R("enc", "rule_handlers"), R("enc", "rule_enc_flags"),
                R("placeholder", "rule_placeholder"), R("compiler", "rule_jump_checked"), R("compiler", "rule_det"),
-               R("narrow", "rule_narrow"), R("compiler", "rule_builder_bal")],
+               R("narrow", "rule_narrow"), R("compiler", "rule_builder_bal"),
+               R("compiler", "rule_func_skip"), R("compiler", "rule_frame_return")],
         clause="Writer/reader layout agreement for every (emission site, opcode) pair (R-ENC), including the StringPush flags "
                "byte (R-ENC-FLAGS); every opcode and instruction has a consumer (R-HANDLERS); every jump placeholder is "
                "patched (R-PLACEHOLDER); jump distances are range-checked, never truncated (R-JUMP-CHECKED); no "
@@ -183,7 +184,9 @@ PROPS = {
                "lists, local, capture and argument counts) is compared with the operand range -- compilation refused on "
                "the far side -- before it is narrowed to a byte, summed in byte arithmetic, or written where the reader "
                "decodes a signed byte (R-NARROW); per Compiler method, emitted SequenceStart/StringStart/TryStart are "
-               "closed by the emitted SequenceTo*/StringFinish/TryEnd on every non-error path (R-BUILDER-BAL). Not decided: "
+               "closed by the emitted SequenceTo*/StringFinish/TryEnd on every non-error path (R-BUILDER-BAL); a nested function's "
+               "body is always preceded by a Function op or a Jump over it (R-FUNC-SKIP) and every frame ends in a Return "
+               "unless its own last expression is a `return` (R-FRAME-RETURN). Not decided: "
                "register/constant indices in range for all programs, balance across methods (nested constructs rely on "
                "each method being balanced).",
         technique="writer/reader grammar extraction from MIR (macro-provenance of decoder reads, array types and emission "
